@@ -15,7 +15,8 @@ valid_case = X.valid_case
 describe = X.describe
 
 RULE = ("same program / history generator as C01 (DAGs of 3-12 nodes, every signal flavour, memos with PartialEq and "
-        "always-changed compare, derived signals, conditional / untracked / repeated reads, equal-value writes), half of the "
+        "always-changed and parity compare, derived signals and type-erased wrappers, conditional / untracked / repeated reads, "
+        "equal-value writes, arena signals / memos disposed in the middle of the history), half of the "
         "cases with 1-3 effects (Effect::new, RenderEffect, watch, isomorphic; some writing signals) and schedules (poll the "
         "k-th ready task, run to idle). Observation = every body invocation with the values it read. A case is non-trivial "
         "when some body ran at least twice; distinct = distinct case hash.")
@@ -30,7 +31,8 @@ TRUSTED = [
 ASSUMPTIONS = [
     "single thread; bodies deterministic; memo bodies do not write signals",
     "DAG by creation order; static graphs (no node created inside a computation)",
-    "a memo 'recomputed to an unequal value' is read as 'its compare function reported changed' (always-changed memos count as changed)",
+    "a memo 'recomputed to an unequal value' is read as 'its compare function reported changed' (always-changed memos count as "
+    "changed, a parity-compare memo only when the parity changed); disposing a source is not a change",
 ]
 LEVEL_TEXT = ("Coq proofs, over the same executable model as C01/C02 instrumented with ghost causes, that a memo body is invoked "
               "again only after a tracked source was written or a tracked memo changed, at most once per change, never because "
